@@ -11,9 +11,10 @@ CONSTANTS
   VALS = {}
   NEST = FALSE
   PAIRS = FALSE
+  INTF = {}
   PATLEN = 3
   INLEN = 3
   ELEMKINDS = {"v", "k", "c", "le"}
   INKINDS = {"1", "k", "7", "l2"}
-INVARIANTS InDomain SynErrSilent GlobalsSuffixed HEmit
+INVARIANTS InDomain SynErrSilent GlobalsSuffixed IntfConsistent HEmit
 CHECK_DEADLOCK FALSE
